@@ -182,6 +182,18 @@ def scenario_flags(body, seeds=()):
                             len(s.rv.ops[0].place.proj) == 2 and isinstance(s.rv.ops[0].place.proj[0], dict) and "dc" in s.rv.ops[0].place.proj[0])):
                     tags.add(s.place.local)
                     changed = True
+    # the re-wrapped error of a `?` is a literal Err/None as well
+    for blk in body.blocks:
+        t = blk.term
+        if not blk.cleanup and t.kind == "call" and t.callee and short(t.callee["def"]).endswith("FromResidual::from_residual") \
+                and t.dest is not None and t.dest.is_local() and t.dest.local != 0:
+            tags.add(t.dest.local)
+    # `x?` on a tagged value: the ControlFlow returned by Try::branch carries the matching tag
+    for blk in body.blocks:
+        t = blk.term
+        if not blk.cleanup and t.kind == "call" and t.callee and short(t.callee["def"]).endswith("Try::branch") and t.dest is not None \
+                and t.dest.is_local() and t.args and t.args[0].place is not None and t.args[0].place.is_local() and t.args[0].place.local in tags:
+            tags.add(t.dest.local)
     # only chains that end in a test matter
     live = set(t for t in tags if t in tested)
     changed = True
@@ -190,6 +202,11 @@ def scenario_flags(body, seeds=()):
         for blk in body.blocks:
             if blk.cleanup:
                 continue
+            t3 = blk.term
+            if t3.kind == "call" and t3.dest is not None and t3.dest.is_local() and t3.dest.local in live and t3.args \
+                    and t3.args[0].place is not None and t3.args[0].place.local in tags and t3.args[0].place.local not in live:
+                live.add(t3.args[0].place.local)
+                changed = True
             for s in blk.stmts:
                 if s.kind == "assign" and s.place.is_local() and s.place.local in live and s.rv.k in ("use", "agg") and s.rv.ops \
                         and s.rv.ops[0].place is not None and s.rv.ops[0].place.local in tags \
